@@ -466,7 +466,10 @@ NUM_STRINGS = [
 WRONG_KINDS = [None, True, False, 0, 1, 42, -3, 4.5, 1e22, 100000.0, ("L", ["a", "b"]), ("L", []), ("L", [1, "2"]), ("L", ["a"]), ("L", ["a", "b", "c"]), ("M", [("k", "v")]),
                ("Z", "x = 1", "python"), ("Z", "", None), ("L", [("L", ["a"])])]
 API_ONLY_KINDS = [float("inf"), float("-inf"), float("nan"), -0.0, ("L", [("Z", "1", None)]), ("M", [("STATUS", "active")])]
-GENERIC_STRINGS = ["", "x", "XYZ", "active", "A", "a", "1", " ", "TRUE", "True", "NULL", "False"]
+GENERIC_STRINGS = ["", "x", "XYZ", "active", "A", "a", "1", " ", "TRUE", "True", "NULL", "False",
+                   # strings whose spelling needs escapes (length / pattern constraints see the VALUE, not the spelling) and strings that
+                   # look like other syntax when written bare (comment, path)
+                   "a\nb", "a\tb", "\\", 'a"b', "//x", "// y", "/p", "./r", "a/b"]
 
 
 def random_numeral(rng) -> str:
@@ -582,6 +585,11 @@ def priority_values(fd):
                     out += [b, float(b) * 2, float(b) / 2]
             out += [2e-07, 1.2345e-05, 3e-07, 1e16]
     out.append(EMPTY)        # every field once with an empty value
+    for c in chain:
+        # length / pattern constraints look at the VALUE: strings whose spelling carries escapes, in every quoting style
+        if isinstance(c, (C.MaxLengthConstraint, C.MinLengthConstraint, C.RegexConstraint)):
+            out += ["a\nb", "a\tb", "\\\\b", 'a"b']
+            break
     return out
 
 
@@ -591,7 +599,8 @@ def text_safe(v) -> bool:
     if isinstance(v, str):
         if len(v) > 300:
             return False
-        return all(c == " " or (c.isprintable() and c not in "\\") for c in v) and unicodedata.normalize("NFC", v) == v
+        # newline, tab, backslash and double quote have escapes (`quote` writes them, in single- and triple-quoted form alike)
+        return all(c in " \n\t" or c.isprintable() for c in v) and unicodedata.normalize("NFC", v) == v
     if isinstance(v, float):
         return math.isfinite(v)
     if isinstance(v, tuple):
